@@ -573,7 +573,8 @@ def explore(S, docs, tabs=(2,), prop='C03', widths=(0, 40, 1 << 30)):
                     m = S.machine(core, STD, ctx)
                     m.max_depth = 300
                     counter = [0]
-                    root = deep.build(ctx, tree, kt, counter)
+                    # (a protected node is printed as written: its blanks would make the text symbolic, so documents with a directive keep their blanks)
+                    root = deep.build(ctx, tree, kt, counter, concrete_ws='@typstyle off' in src)
                     cfg = Agg('Config', None, (tab, width, 2, z3.Bool('cfg_reorder')), pp.CFG_NAMES)
 
                     def describe(mdl):
@@ -869,6 +870,7 @@ def confirm(S, info, prop='C03'):
 
 # documents that show a defect recorded as an open known finding: the key carries the document's id, so that nothing else is suppressed
 KNOWN_DEFECT_DOCS = {
+    '#f(a, /* @typstyle off */\n b  +  c)\n': 'directive-comment-behind-a-comma',
     '$ mat(a, // c\n b; c) $\n': 'math-row-with-a-line-comment',
     '* - a\nb *\n': 'strong-body-that-starts-with-a-dash',
     'text #box[- a\n           b]\n': 'list-item-in-a-content-block-on-a-text-line',
